@@ -961,6 +961,35 @@ def run_codec_names(ctx):
                 ctx.violation('codec-name-raises', case, '%s: %s' % (type(e).__name__, str(e)[:160]), KNOWN_PRED)
 
 
+def run_unencodable(ctx):
+    """text no encoding can hold as such (lone surrogates from escapes) and text the chosen encoding cannot hold: the
+    sheet serialises under every reported encoding, with or without an @charset rule, and reads back equal"""
+    import cssutils
+    from harness import impl
+    for body in ('a{content:"\\D800 x"}', '.\\DFFF {a:b}', 'a{content:"\\DBFF\\DC00 "}', '/*\\D800*/ a{b:"\u4e2d"}', 'a{b:url(\\D9AB.png)}'):
+        for enc in (None, 'utf-8', 'ascii', 'iso-8859-1', 'utf-16', 'koi8-r'):
+            for how in ('charset-rule', 'attribute', 'none'):
+                impl.reset()
+                case = {'family': 'unencodable', 'text': body, 'encoding': enc, 'how': how}
+                ctx.case(('unencodable', body, enc, how))
+                try:
+                    if how == 'charset-rule' and enc:
+                        sheet = cssutils.parseString('@charset "%s";' % enc + body)
+                    else:
+                        sheet = cssutils.parseString(body)
+                        if how == 'attribute':
+                            sheet.encoding = enc
+                    data = sheet.cssText
+                    again = cssutils.parseString(data)
+                    a = [r.cssText for r in sheet.cssRules if r.type == r.STYLE_RULE]
+                    b = [r.cssText for r in again.cssRules if r.type == r.STYLE_RULE]
+                except Exception as e:  # noqa
+                    ctx.violation('codec-name-raises', case, '%s: %s' % (type(e).__name__, str(e)[:160]), KNOWN_PRED)
+                    continue
+                if a != b:
+                    ctx.violation('codec-name-lossy', case, 'rules %r read back as %r (bytes %r)' % (a, b, data[:80]), KNOWN_PRED)
+
+
 def run_import_spellings(ctx):
     """an @import added through the DOM as text: however the at-keyword is spelled the imported sheet is decoded as at
     parse time (with the referring sheet's encoding when it has no encoding information of its own)"""
@@ -1001,6 +1030,7 @@ def run(ctx):
     quick = ctx.tier == 'quick'
     rng = ctx.rng
     run_codec_names(ctx)
+    run_unencodable(ctx)
     run_import_spellings(ctx)
     for _ in range(60 if quick else 1500):
         run_repoint(ctx, rng)
